@@ -77,14 +77,20 @@ def norm_model(line: str) -> Tuple[str, str, str]:
     return out, valid.split("=")[1], exists.split("=")[1]
 
 
-def explore(ctx: Ctx, want_live: bool = True, structure: bool = True, contract=None) -> List[dict]:
+def explore(ctx: Ctx, want_live: bool = True, structure: bool = True, contract=None, only=None, round_only=None) -> List[dict]:
     """Runs R-req and returns one record per request: scenario, path, impl outcome, model outcome, impl/model mask, flags.
-    With a `contract` (rigs/request_contract.Contract) every request is also judged against the hand-written contract."""
+    With a `contract` (rigs/request_contract.Contract) every request is also judged against the hand-written contract.
+    `only` restricts the run to the named scenarios (one shard); every scenario has its own random streams (one for the
+    perturbation, one per round for the request families), so the result does not depend on how the work is distributed over
+    processes.  `round_only=r` (thorough shards) evaluates round r alone: the state is the initial state plus r perturbation
+    batches (the live requests of earlier rounds, which in a sequential run are part of the path, are then not)."""
     reg = registry()
-    rng = ctx.rng.fork("req")
     records: List[dict] = []
     lines: List[str] = []
     for name, path in scenarios(ctx).items():
+        if only is not None and name not in only:
+            continue
+        prng = ctx.rng.fork("req:" + name + ":perturb")
         try:
             cfg = scen.load_cfg(path)
             game = scen.make_game(cfg)
@@ -95,10 +101,13 @@ def explore(ctx: Ctx, want_live: bool = True, structure: bool = True, contract=N
         rounds = ctx.scale(2, 4)
         history: List[Any] = []
         for rnd in range(rounds):
+            rng = ctx.rng.fork(f"req:{name}:{rnd}")
             vocab = rig._vocab(sim)
             if rnd:
-                history += rig.perturb(rng, sim, reg, vocab, steps=ctx.scale(10, 25))
+                history += rig.perturb(prng, sim, reg, vocab, steps=ctx.scale(10, 25))
                 vocab = rig._vocab(sim)
+            if round_only is not None and rnd != round_only:
+                continue
             rm = sim._request_manager
             restored = {(q[2], q[6], q[7]) for q in history if len(q) >= 8 and q[3:6] == ["file_system", "restore", "file"]}
             for mm in (rig.structure_mismatches(sim) if structure else []):
@@ -197,7 +206,7 @@ def explore(ctx: Ctx, want_live: bool = True, structure: bool = True, contract=N
 DOCUMENTED = {"pending", "success", "failure", "unreachable"}
 
 
-def judge(ctx: Ctx, records: List[dict]):
+def judge(ctx: Ctx, records: List[dict], oblige: bool = True):
     agree = total = 0
     for r in records:
         k = r["kind"]
@@ -259,10 +268,112 @@ def judge(ctx: Ctx, records: List[dict]):
             ctx.violation({"kind": "action-on-existing-component-unreachable", "action": k.split(":", 1)[1]},
                           f"action request {r['req']} names existing components but is unreachable",
                           {"scenario": r["scenario"], "round": r["round"], "req": r["req"]})
-    ctx.oblige("rig:R-req dispatch agrees with the model on every request", "correspondence", agree == total, f"{total - agree} of {total} differ")
+    if oblige:
+        ctx.oblige("rig:R-req dispatch agrees with the model on every request", "correspondence", agree == total, f"{total - agree} of {total} differ")
     for r in records:
         if r["kind"] not in ("tree",) and not r["kind"].startswith("live:"):
             ctx.sample({"scenario": r["scenario"], "req": r["req"], "impl": r["impl"], "model": r["model_raw"]}, cap=5)
+    return agree, total
+
+
+# ---------------------------------------------------------------------------------------------- shards (thorough tier)
+_SHARD: Dict[str, Any] = {}
+
+
+def _shard_unit(unit: tuple) -> dict:
+    """one unit of work in a forked worker, on a private Ctx; returns what has to be merged.
+    ("req", scenario, round) | ("contract", kind, key...) | ("edits",)"""
+    import time
+    t0 = time.time()
+    sub = Ctx(_SHARD["prop"], _SHARD["tier"], _SHARD["seed"])
+    agree = total = 0
+    err = None
+    try:
+        if unit[0] == "req":
+            try:
+                contract = rcon.Contract(sorted(registry()))
+            except Exception:
+                contract = None
+            agree, total = judge(sub, explore(sub, contract=contract, only=[unit[1]], round_only=unit[2]), oblige=False)
+        elif unit[0] == "contract":
+            paths = scenarios(sub)
+            if unit[1] == "zoo":
+                rcon.search(sub, registry(), {}, zoo_seeds=[unit[2]], gen_families=[])
+            elif unit[1] == "scenario":
+                rcon.search(sub, registry(), {unit[2]: paths[unit[2]]}, zoo_seeds=[], gen_families=[])
+            else:
+                rcon.search(sub, registry(), {}, zoo_seeds=[], gen_families=[(unit[2], unit[3])])
+        elif unit[0] == "edits":
+            edits(sub)
+    except Exception as e:   # a shard that dies must not pass silently
+        import traceback
+        err = f"{type(e).__name__}: {e}\n{traceback.format_exc()[-1500:]}"
+    return {"unit": unit, "hist": sub.hist, "violations": sub.violations, "notes": sub.notes, "distinct": sub._distinct,
+            "evaluations": sub.cov["evaluations"], "traces": sub.cov["traces_validated_against_impl"], "samples": sub.cov["samples"],
+            "deep": sub.cov.get("deep_fingerprint_entries_max", 0), "leaves": sub.cov.get("describe_state_leaves_max", 0),
+            "obligations": sub.obligations, "agree": agree, "total": total, "wall": round(time.time() - t0, 1), "error": err}
+
+
+def run_sharded(ctx: Ctx) -> None:
+    """thorough tier: R-req (one unit per scenario and round), the contract search (one unit per game) and R-edits over forked
+    worker processes; the merge is in unit order, so the evidence does not depend on the scheduling"""
+    import multiprocessing as mp
+    import os
+    registry()                       # import primaite (and register every action) BEFORE forking
+    paths = scenarios(ctx)
+    rounds = ctx.scale(2, 4)
+    units: List[tuple] = [("req", k, r) for k in paths for r in range(rounds)]
+    units += [("contract", "zoo", z) for z in (7, 8, 9)] + [("contract", "scenario", k) for k in paths]
+    units += [("contract", "gen", f, z) for f, z in (("lan", 3), ("routed", 4), ("dmz", 5))] + [("edits",)]
+    n = int(os.environ.get("C05_WORKERS", "0") or 0) or 8
+    n = max(1, min(n, len(units), os.cpu_count() or 2))
+    _SHARD.update({"prop": ctx.prop, "tier": ctx.tier, "seed": ctx.seed})
+
+    def weight(u):
+        w = os.path.getsize(paths[u[1]]) if u[0] == "req" else (os.path.getsize(paths[u[2]]) // 3 if u[:2] == ("contract", "scenario") else 10 ** 6)
+        return -w
+    order = sorted(range(len(units)), key=lambda i: weight(units[i]))
+    if n == 1:
+        got = [_shard_unit(units[i]) for i in order]
+    else:
+        with mp.get_context("fork").Pool(n, maxtasksperchild=6) as pool:
+            got = pool.map(_shard_unit, [units[i] for i in order], chunksize=1)
+    res: List[Any] = [None] * len(units)
+    for i, g in zip(order, got):
+        res[i] = g
+    agree = total = 0
+    errors = []
+    merged_obl: Dict[str, dict] = {}
+    for g in res:
+        for key, v in g["hist"].items():
+            ctx.count(key, v)
+        ctx.violations.extend(g["violations"])
+        for note in g["notes"]:
+            if note not in ctx.notes:
+                ctx.notes.append(note)
+        ctx._distinct |= g["distinct"]
+        ctx.cov["evaluations"] += g["evaluations"]
+        ctx.cov["traces_validated_against_impl"] += g["traces"]
+        for smp in g["samples"]:
+            ctx.sample(smp, cap=5)
+        ctx.cov["deep_fingerprint_entries_max"] = max(ctx.cov.get("deep_fingerprint_entries_max", 0), g["deep"])
+        ctx.cov["describe_state_leaves_max"] = max(ctx.cov.get("describe_state_leaves_max", 0), g["leaves"])
+        for o in g["obligations"]:      # the same obligation from several units: it holds iff it holds in every unit
+            m = merged_obl.setdefault(o["name"], {"name": o["name"], "kind": o["kind"], "ok": True, "detail": ""})
+            m["ok"] = m["ok"] and o["ok"]
+            if not o["ok"]:
+                m["detail"] = (m["detail"] + "; " + o["detail"])[-3000:]
+        agree += g["agree"]
+        total += g["total"]
+        if g["error"]:
+            errors.append(f"{g['unit']}: {g['error'][:300]}")
+    for m in merged_obl.values():
+        ctx.oblige(m["name"], m["kind"], m["ok"], m["detail"])
+    ctx.cov["shards"] = {"worker_processes": n, "units": len(units),
+                         "slowest_units_s": {str(g["unit"]): g["wall"] for g in sorted(res, key=lambda g: -g["wall"])[:6]},
+                         "cpu_s": round(sum(g["wall"] for g in res), 1)}
+    ctx.oblige("rig: every shard finished", "correspondence", not errors, "; ".join(errors[:3]))
+    ctx.oblige("rig:R-req dispatch agrees with the model on every request", "correspondence", agree == total, f"{total - agree} of {total} differ")
 
 
 def replay(rec: dict) -> bool:
@@ -304,8 +415,7 @@ def corpus(ctx: Ctx):
         w = json.loads(f.read_text())
         if w.get("pre"):  # witnesses that need a prepared state get a game of their own
             g = scen.make_game(scen.load_cfg(scen.shipped()[w["scenario"]]))
-            for q in w["pre"]:
-                g.simulation.apply_request(q)
+            rcon.apply_ops(g.simulation, w["pre"])   # requests, ticks, tagged API steps ("api:uninstall", node, software)
             sim = g.simulation
         else:
             if w["scenario"] not in games:
@@ -372,21 +482,25 @@ def run(ctx: Ctx):
     except Exception as e:
         contract = None
         ctx.notes.append(f"contract tables not readable from drv_c05: {type(e).__name__}: {e}")
-    judge(ctx, explore(ctx, contract=contract))
-    _stage(ctx, "R-req+contract-oracle+live", t0)
-    t0 = time.time()
-    # contract search: every route-owning class driven into every gate-falsifying state, judged against the hand-written contract
     ctx.cov["rule_contract"] = ("R-contract: one instance of every node / NIC / service / application class, a folder and a file per node "
                                 "class, of a zoo game (every registered node type, every registered software class), of the shipped "
                                 "scenarios and of generated families, driven into every state that falsifies a component gate; every route "
                                 "below the component raw (stubbed) + every action naming it; suspects and a sample of refused requests "
                                 "re-sent with the real handlers and compared by deep state fingerprint")
-    rcon.search(ctx, registry(), scenarios(ctx), zoo_seeds=[7] if not ctx.thorough else [7, 8, 9],
-                gen_families=[] if not ctx.thorough else [("lan", 3), ("routed", 4), ("dmz", 5)])
-    _stage(ctx, "contract-search+raw-live", t0)
-    t0 = time.time()
-    edits(ctx)
-    _stage(ctx, "R-edits", t0)
+    if ctx.thorough:
+        # ~60 scenarios x 4 rounds of R-req, the contract search over ~70 games and R-edits: units over worker processes
+        run_sharded(ctx)
+        _stage(ctx, "sharded: R-req + contract search + raw-live + R-edits", t0)
+    else:
+        judge(ctx, explore(ctx, contract=contract))
+        _stage(ctx, "R-req+contract-oracle+live", t0)
+        t0 = time.time()
+        # contract search: every route-owning class driven into every gate-falsifying state, judged against the hand-written contract
+        rcon.search(ctx, registry(), scenarios(ctx), zoo_seeds=[7], gen_families=[])
+        _stage(ctx, "contract-search+raw-live", t0)
+        t0 = time.time()
+        edits(ctx)
+        _stage(ctx, "R-edits", t0)
     t0 = time.time()
     # static part: schematic request tree (E4) x action templates (E5): C05_action_templates_resolve & co (Props/C05Schema.lean)
     from harness.props import c05x
